@@ -213,9 +213,19 @@ func (its *TransactionDatatype) DoTransaction(
 			// do nothing
 		}
 	}()
-	if err := funcWithCloneDatatype(txCtx); err != nil {
+	funcTxCtx := txCtx
+	if funcTxCtx == nil {
+		// called inside the caller's own running transaction (e.g. a patch of several operations in the function
+		// of a user transaction): the operations join that transaction, which holds the lock already
+		funcTxCtx = currentTxCtx
+	}
+	if err := funcWithCloneDatatype(funcTxCtx); err != nil {
 		its.SetTransactionFail()
 		return errors.DatatypeTransaction.New(its.L(), err.Error())
+	}
+	if txCtx != nil && !its.success {
+		// a unit inside the transaction failed although the function did not report it: the transaction is rolled back
+		return errors.DatatypeTransaction.New(its.L(), "a unit of operations inside the transaction failed")
 	}
 	return nil
 }
